@@ -297,6 +297,13 @@ func (e *env) verifyTier(cases []*certCase, pinsPerMode int) {
 		add(2-rot%2, htRecv, cc.P.D, pinNone)
 		add(1+rot%2, htRecv, leafCN, pinNone)
 		add(2-rot%2, htRecv, "", 1+rot%(nPins-1))
+		// several certificates presented: pins that equal digests of the others, not of the peer's own
+		if len(cc.Raw) > 1 && cc.Parses {
+			add(vtServer, htRecv, cc.P.E, pinOfOther)
+			add(vtClient, htRecv, cc.P.E, pinOfOtherAll)
+			add(1+rot%2, htDNS, cc.P.D, pinOfOther)
+			add(2-rot%2, htDNS, "", pinOfOtherAll)
+		}
 		// a free run: any verify type, any host name type, some other expected name
 		exps := []string{cc.P.E, cc.P.O, "", cc.P.E + "x", cc.P.D, cc.P.DOther, cc.P.O2, fv[0], " ", leafCN}
 		add([]int{0, 1, 2, 3, 1, 2}[r.Intn(6)], []int{0, 1, 2, 3, 1, 2, 2}[r.Intn(7)], exps[r.Intn(len(exps))], r.Intn(nPins))
@@ -428,7 +435,7 @@ func (e *env) clientProfile(name string, skip bool, pins [][]byte, cert *tls.Cer
 func (e *env) clientTier(cases []*certCase, runsPer int) {
 	r := e.c.Rng
 	for _, cc := range cases {
-		if cc.Kind != "product" {
+		if cc.Kind != "product" && cc.Kind != "plus-stranger" {
 			continue
 		}
 		srv := &tls.Config{Certificates: []tls.Certificate{{Certificate: cc.Raw, PrivateKey: e.p.leafKey}}, MinVersion: tls.VersionTLS12}
@@ -456,6 +463,9 @@ func (e *env) clientTier(cases []*certCase, runsPer int) {
 			pk := pinNone
 			if k > 0 {
 				pk = r.Intn(nPins)
+			}
+			if k > 0 && k < runsPer && len(cc.Raw) > 1 && k%2 == 1 {
+				pk = pinOfOther + k/2%2 // pins that name another certificate of the server's certificate message
 			}
 			skip := r.Chance(6)
 			if cc.P.Names == namCaseFold && k == 0 {
@@ -545,7 +555,7 @@ func (e *env) serverConfig(n *netceptor.Netceptor, sp sprofile, cert, key string
 func (e *env) serverTier(cases []*certCase, runsPer int) {
 	r := e.c.Rng
 	for _, cc := range cases {
-		if cc.Kind != "product" && cc.Kind != "no-cert" {
+		if cc.Kind != "product" && cc.Kind != "no-cert" && cc.Kind != "plus-stranger" {
 			continue
 		}
 		var terms []string
@@ -557,6 +567,9 @@ func (e *env) serverTier(cases []*certCase, runsPer int) {
 			}
 			if k > 0 {
 				sp.PinKind = r.Intn(nPins)
+			}
+			if k > 0 && len(cc.Raw) > 1 && k%2 == 1 {
+				sp.PinKind = pinOfOther + k/2%2 // pins that name another certificate of the client's certificate message
 			}
 			sp.Pins = cc.pins(sp.PinKind, r)
 			srv := e.serverConfig(e.node, sp, e.srvCert, e.srvKey)
@@ -648,7 +661,7 @@ func (e *env) serverTier(cases []*certCase, runsPer int) {
 
 func runC09(c *Ctx) {
 	im := NewImpl("C09", c.Seed, c.Tier)
-	im.Rule = "certificates from crypto/x509 over issuer{RootCAs CA, ClientCAs CA, unrelated CA, self-signed, via intermediate presented/missing} x window{valid, expired, not yet valid} x EKU{server, client, both, neither, absent} x names{expected, other, several, none, DNS-only, DNS-other, several-without, near-miss, bad-UTF8, blank-ids = otherNames \"\" and \" \", case-fold = every spelling differing from the expected ID only by ASCII case or Unicode simple case folding k/U+212A s/U+017F, both directions} (node IDs and host names random per certificate), plus malformed presentations (no certificate, garbage, truncated, garbage second element); each shown to ReceptorVerifyFunc for both verify types x {receptor, DNS, DNS-empty} x rotating pin lists {none, sha256, sha512, sha224, sha384, miss, wrong length, match-then-wrong, wrong-then-match, miss-then-match, empty pin, match-then-miss} plus a free run (invalid types, other expected names); TIME: verifiers (ReceptorVerifyFunc closures, GetClientTLSConfig receptor-mode config, PrepareTLSServerConfig config) are built first for certificates whose window ends / begins ~6 s later, used at once and used again after the boundary, every case carrying the time of the call; CONFIG: profile lookups by name, the default client profile, fingerprint option spellings/sizes/mutations through PrepareTLS*Config; CONSUMERS: YAML documents (tls-server, tls-client, tcp-listener/peer, ws-listener/peer, control-service, tcp-server, tcp-client) parsed by the receptor command's cmdline library and run on real nodes over loopback sockets, each consumer with the accept/refuse matrix of certificates; a sample goes through crypto/tls handshakes (client side via GetClientTLSConfig, server side via PrepareTLSServerConfig) and through DialContext/ListenAndAdvertise on a real mesh; non-trivial = a certificate was presented and parses; distinct by certificate parameters + run"
+	im.Rule = "certificates from crypto/x509 over issuer{RootCAs CA, ClientCAs CA, unrelated CA, self-signed, via intermediate presented/missing} x window{valid, expired, not yet valid} x EKU{server, client, both, neither, absent} x names{expected, other, several, none, DNS-only, DNS-other, several-without, near-miss, bad-UTF8, blank-ids = otherNames \"\" and \" \", case-fold = every spelling differing from the expected ID only by ASCII case or Unicode simple case folding k/U+212A s/U+017F, both directions} (node IDs and host names random per certificate), plus malformed presentations (no certificate, garbage, truncated, garbage second element) and good certificates followed by a stranger's certificate, with pin lists that equal the digests of the OTHER presented certificates; each shown to ReceptorVerifyFunc for both verify types x {receptor, DNS, DNS-empty} x rotating pin lists {none, sha256, sha512, sha224, sha384, miss, wrong length, match-then-wrong, wrong-then-match, miss-then-match, empty pin, match-then-miss, digest of another presented certificate, digests of all other presented certificates} plus a free run (invalid types, other expected names); TIME: verifiers (ReceptorVerifyFunc closures, GetClientTLSConfig receptor-mode config, PrepareTLSServerConfig config) are built first for certificates whose window ends / begins ~6 s later, used at once and used again after the boundary, every case carrying the time of the call; CONFIG: profile lookups by name, the default client profile, fingerprint option spellings/sizes/mutations through PrepareTLS*Config; CONSUMERS: YAML documents (tls-server, tls-client, tcp-listener/peer, ws-listener/peer, control-service, tcp-server, tcp-client) parsed by the receptor command's cmdline library and run on real nodes over loopback sockets, each consumer with the accept/refuse matrix of certificates; a sample goes through crypto/tls handshakes (client side via GetClientTLSConfig, server side via PrepareTLSServerConfig) and through DialContext/ListenAndAdvertise on a real mesh; non-trivial = a certificate was presented and parses; distinct by certificate parameters + run"
 	cf := &CaseFile{Dir: c.Out, Prop: "C09", Imports: []string{"Model.Tls"}, CaseType: "tls_case", CheckFn: "tls_check", PerShard: 60}
 	QuietLogs()
 	log.SetOutput(io.Discard) // net/http reports every refused TLS handshake of the websocket listeners
@@ -695,6 +708,19 @@ func runC09(c *Ctx) {
 		base := cases[r.Intn(nProduct)]
 		cases = append(cases, base.malformed([]string{"no-cert", "garbage-leaf", "truncated-leaf", "garbage-second"}[i%4], r))
 	}
+	// good certificates followed by a stranger's certificate in the same certificate message
+	stranger := e.p.make(certParams{Issuer: issRoot, Window: winValid, EKU: ekuBoth, Names: namExpected, E: "pinned-stranger", D: "stranger.example"})
+	strangerDER = stranger.Raw[0]
+	nStr := 0
+	for _, i := range r.Perm(nProduct) {
+		base := cases[i]
+		if base.TimeOK && (base.ChainRoots || base.ChainClientCAs) && base.Kind == "product" {
+			cases = append(cases, base.malformed("plus-stranger", r))
+			if nStr++; nStr >= 10 {
+				break
+			}
+		}
+	}
 	im.Extra["certificates"] = len(cases)
 	pinsPerMode := 1
 	if c.Thorough() {
@@ -712,7 +738,7 @@ func runC09(c *Ctx) {
 	var sample []*certCase
 	for i, cc := range cases {
 		good := cc.TimeOK && cc.Kind == "product"
-		if c.Thorough() || cc.Kind == "no-cert" || (good && i%4 == 0) || i%13 == 0 || (good && cc.P.Names == namCaseFold && cc.P.Issuer <= issClient) {
+		if c.Thorough() || cc.Kind == "no-cert" || cc.Kind == "plus-stranger" || (good && i%4 == 0) || i%13 == 0 || (good && cc.P.Names == namCaseFold && cc.P.Issuer <= issClient) {
 			sample = append(sample, cc)
 		}
 	}
